@@ -39,6 +39,14 @@ type Config struct {
 	Bln    *blncfg.Config `json:"bln,omitempty"`
 	Gen    int64          `json:"gen"`
 	Note   string         `json:"note,omitempty"` // how it was generated (e.g. rejection kind)
+	Common *CommonCfg     `json:"common,omitempty"`
+}
+
+// CommonCfg is the policy-independent part of the configuration the harness varies.
+type CommonCfg struct {
+	RDTQoSDefault     bool `json:"rdt_qos_default,omitempty"`     // control.rdt.enable + usePodQoSAsDefaultClass
+	BlockIOQoSDefault bool `json:"blockio_qos_default,omitempty"` // control.blockio.enable + usePodQoSAsDefaultClass
+	PrometheusExport  bool `json:"prometheus_export,omitempty"`   // instrumentation.prometheusExport (no HTTP endpoint): the metrics gatherer and its lock exist
 }
 
 func (c *Config) Clone() *Config {
@@ -59,11 +67,21 @@ func (c *Config) ResmgrConfig() cfgapi.ResmgrConfig {
 		// deep copy through JSON so the policy never shares memory with the monitor's copy
 		b, _ := json.Marshal(c.TA)
 		_ = json.Unmarshal(b, &obj.Spec.Config)
+		if cc := c.Common; cc != nil {
+			obj.Spec.Control.RDT.Enable, obj.Spec.Control.RDT.UsePodQoSAsDefaultClass = cc.RDTQoSDefault, cc.RDTQoSDefault
+			obj.Spec.Control.BlockIO.Enable, obj.Spec.Control.BlockIO.UsePodQoSAsDefaultClass = cc.BlockIOQoSDefault, cc.BlockIOQoSDefault
+			obj.Spec.Instrumentation.PrometheusExport = cc.PrometheusExport
+		}
 		return obj
 	case PolBalloons:
 		obj := &cfgapi.BalloonsPolicy{ObjectMeta: meta}
 		b, _ := json.Marshal(c.Bln)
 		_ = json.Unmarshal(b, &obj.Spec.Config)
+		if cc := c.Common; cc != nil {
+			obj.Spec.Control.RDT.Enable, obj.Spec.Control.RDT.UsePodQoSAsDefaultClass = cc.RDTQoSDefault, cc.RDTQoSDefault
+			obj.Spec.Control.BlockIO.Enable, obj.Spec.Control.BlockIO.UsePodQoSAsDefaultClass = cc.BlockIOQoSDefault, cc.BlockIOQoSDefault
+			obj.Spec.Instrumentation.PrometheusExport = cc.PrometheusExport
+		}
 		return obj
 	}
 	return nil
